@@ -1004,3 +1004,74 @@ def ex1(proj, rep, modules=None):
                 rep.ok('EX1', fi.qual, f'dispatch on `{name}` covers {sorted(map(str, want))}', m, s)
     rep.count('EX1.dispatch_chains', n)
     return n
+
+
+# ------------------------------------------------------------------------------------------------ MC3
+RULE_MC3 = ('MC3: who may memoise: the memoised functions of the package are a reviewed, frozen set (24 on the reviewed tree; their alias sites are what O1 / O3 / O5 / '
+            'H5 / MC1 check). A function outside that set that is decorated with lru_cache / cache (or keeps a module-level memo) and returns a NumPy / torch '
+            'object without freezing it hands one shared mutable object to every caller with equal arguments: an in-place edit of one result silently changes '
+            'all later results.')
+MC3_REVIEWED = {
+    'numqi._torch_op.get_PSDMatrixLogm', 'numqi.entangle.ppt._is_generalized_ppt_dim_list', 'numqi.entangle.symext.get_cvxpy_transpose0213_indexing',
+    'numqi.entangle.symext.get_symmetric_extension_index_list', 'numqi.gate._internal._get_quditX_eigen', 'numqi.gate._pauli.get_pauli_group',
+    'numqi.gellmann._all_gellmann_matrix_cache', 'numqi.group._lie._get_su2_irrep_get_coeff', 'numqi.group._symmetric._get_hook_length_hf0',
+    'numqi.group._symmetric._get_sym_group_num_irrep_hf0', 'numqi.group._symmetric._get_symmetric_group_cayley_table_hf0', 'numqi.group.spf2._get_number_internal',
+    'numqi.group.symext._get_symmetric_extension_irrep_coeff_internal', 'numqi.matrix_space._clebsch_gordan._get_clebsch_gordan_coeffient_cache',
+    'numqi.matrix_space._hierarchy._permutation_with_antisymmetric_factor_on_int_tuple', 'numqi.matrix_space._hierarchy.get_antisymmetric_basis',
+    'numqi.matrix_space._hierarchy.get_antisymmetric_basis_index', 'numqi.matrix_space._hierarchy.get_symmetric_basis',
+    'numqi.matrix_space._hierarchy.get_symmetric_basis_index', 'numqi.matrix_space._hierarchy.naive_antisym_sym_projector',
+    'numqi.sim.clifford._basic_clifford_dagger_f2', 'numqi.sim.state._measure_quantum_vector_hf0', 'numqi.sim.state._reduce_shape_index_hf0',
+    'numqi.utils._hf_num_state_to_num_qubit_hf0',
+}
+_IMMUTABLE_CALLS = {'int', 'float', 'str', 'bool', 'len', 'tuple', 'frozenset', 'complex', 'round', 'sum', 'max', 'min'}
+
+
+def _immutable_expr(fn, e, at, depth=0):
+    if isinstance(e, ast.Constant):
+        return True
+    if isinstance(e, ast.Tuple):
+        return all(_immutable_expr(fn, x, at, depth) for x in e.elts)
+    if isinstance(e, ast.Call) and isinstance(e.func, ast.Name) and e.func.id in _IMMUTABLE_CALLS:
+        return True
+    if isinstance(e, ast.Call) and isinstance(e.func, ast.Attribute) and e.func.attr in ('item', 'tobytes', 'tolist') and e.func.attr != 'tolist':
+        return True
+    if isinstance(e, (ast.Compare, ast.BoolOp)):
+        return True
+    if isinstance(e, ast.IfExp):
+        return _immutable_expr(fn, e.body, at, depth) and _immutable_expr(fn, e.orelse, at, depth)
+    if isinstance(e, ast.Name) and depth < 3:
+        defs = [(v, st) for v, st, p in reaching_defs(fn, e.id, at) if v != 'param' and p is None]
+        return bool(defs) and all(_immutable_expr(fn, v, st, depth + 1) for v, st in defs)
+    return False
+
+
+def mc3(proj, rep, modules=None):
+    from .ownership import cached_functions
+    rep.rule('MC3', RULE_MC3)
+    cached = cached_functions(proj)
+    n = 0
+    for q, how in sorted(cached.items()):
+        fi = proj.func(q)
+        m = fi.module
+        if not _in_scope(m, modules):
+            continue
+        n += 1
+        rep.touch(m)
+        if q in MC3_REVIEWED:
+            rep.ok('MC3', q, f'reviewed memo ({how[:40]})', m, fi.node, text=f'{q} memo')
+            continue
+        src = ast.unparse(fi.node).replace(' ', '')
+        if 'flags.writeable=False' in src or 'setflags(write=False)' in src:
+            rep.ok('MC3', q, 'new memo, result frozen', m, fi.node, text=f'{q} memo')
+            continue
+        rets = [r for r in ast.walk(fi.node) if isinstance(r, ast.Return) and r.value is not None]
+        if rets and all(_immutable_expr(fi.node, r.value, r) for r in rets):
+            rep.ok('MC3', q, 'new memo of an immutable value', m, fi.node, text=f'{q} memo')
+        elif 'np.' in src or 'torch.' in src or 'numpy.' in src:
+            rep.violation('MC3', q, f'not in the reviewed set of memoised functions, decorated `{how[:40]}`, returns an array-valued result unfrozen '
+                          f'(`{ast.unparse(rets[0])[:40] if rets else "?"}`): all callers with equal arguments share one mutable object', m, fi.node, text=f'{q} memo')
+        else:
+            rep.ok('MC3', q, 'new memo; no array evidence in the body', m, fi.node, text=f'{q} memo')
+    # the reviewed names must still exist (a renamed cache is re-reviewed, not silently dropped)
+    rep.count('MC3.memoised_functions', n)
+    return n
